@@ -498,7 +498,6 @@ void lltd_verif_hook(const char *point, void *iface_ctx) {
 
 /* The format strings and arguments are part of the core's UB surface: format
  * them for real (under ASan/UBSan) and discard the result. */
-static volatile unsigned vlog_sink;
 
 /* Walk the arguments in instrumented code first: every %s argument is read up to its terminator here, so that a string
  * that is not terminated, dangling or uninitialised is reported at this spot by the sanitizer of the build (libc's own
@@ -522,7 +521,9 @@ static void vlog_walk(const char *fmt, va_list ap0) {
             case 'p': (void)va_arg(ap, void *); break;
             case 's': {
                 const char *s = va_arg(ap, const char *);
-                if (s) for (size_t i = 0; i < 4096; i++) { unsigned char c = (unsigned char)s[i]; vlog_sink += c; if (!c) break; }
+                unsigned acc = 0;          /* no shared state here: loggers run on every daemon thread */
+                if (s) for (size_t i = 0; i < 4096; i++) { unsigned char c = (unsigned char)s[i]; acc += c; if (!c) break; }
+                __asm__ volatile("" : : "r"(acc) : "memory");
                 break;
             }
             case 'f': case 'g': case 'e': (void)va_arg(ap, double); break;
